@@ -153,6 +153,11 @@ func vfGetPKI() *vfPKI {
 			time.Date(1990, 1, 1, 0, 0, 0, 0, time.UTC), time.Date(1999, 12, 1, 0, 0, 0, 0, time.UTC), 204)
 		p.leaf["ecdsa/client-expired"] = vfMakeLeaf(p.CA, p.CAKey, "ecdsa", "vf-client-expired", []string{"vf.client.example"},
 			time.Date(1990, 1, 1, 0, 0, 0, 0, time.UTC), time.Date(1999, 12, 1, 0, 0, 0, 0, time.UTC), 205)
+		// valid when a synctest bubble starts (2000-01-01 00:00 UTC), expired six virtual hours later
+		p.leaf["ecdsa/server-shortlived"] = vfMakeLeaf(p.CA, p.CAKey, "ecdsa", "vf-server-shortlived", []string{vfServerName},
+			nb, time.Date(2000, 1, 1, 6, 0, 0, 0, time.UTC), 214)
+		p.leaf["ecdsa/client-shortlived"] = vfMakeLeaf(p.CA, p.CAKey, "ecdsa", "vf-client-shortlived", []string{"vf.client.example"},
+			nb, time.Date(2000, 1, 1, 6, 0, 0, 0, time.UTC), 215)
 		p.leaf["ecdsa/server-2"] = vfMakeLeaf(p.CA, p.CAKey, "ecdsa", "vf-server-2", []string{vfServerName}, nb, na, 206)
 		p.leaf["ecdsa/client-2"] = vfMakeLeaf(p.CA, p.CAKey, "ecdsa", "vf-client-2", []string{"vf.client.example"}, nb, na, 207)
 		vfPKIv = p
